@@ -62,7 +62,7 @@ AXES = {
     "square-grid": [("domain", "__square", 6)],
     # an odd cell count with a truncating mode request: the low-level pipeline refuses it (C11), so must the run
     "odd-grid": [("domain", "__odd", 7)],
-    "source": [("solver", "surface_flux_shape", "circle"), ("solver", "surface_flux_shape", "point"), ("solver", "src_loc", [30.0, 20.0]), ("solver", "src_loc", [0.0, 0.0]), ("__user_flux", None, True)],
+    "source": [("solver", "surface_flux_shape", "circle"), ("solver", "surface_flux_shape", "point"), ("solver", "src_loc", [30.0, 20.0]), ("solver", "src_loc", [0.0, 0.0]), ("__user_flux", None, True), ("__user_flux", None, "other-grid")],
 }
 
 
@@ -73,7 +73,7 @@ def apply(devs):
         if sec == "towers":
             d["towers"] = copy.deepcopy(val)
         elif sec == "__user_flux":
-            user_flux = True
+            user_flux = val
         elif sec == "__ints" or sec == "__zm":
             pass  # applied at the end
         elif key == "__z0_only":
@@ -182,7 +182,9 @@ def case_config(case):
                 v.append({"sub": "labels", "sig": "labels/timestamps", "msg": "timestamps %r parsed from the %s as %r; %s" % (raw["met"]["timestamps"], which, got_ts, lab)})
     q_user = None
     if user_flux:
-        q_user = core.case_rng(0, "c13-user-flux").random((cfg.domain.ny, cfg.domain.nx)) + np.arange(cfg.domain.nx)[None, :]
+        # a field on the configured grid, or (documented low-level behaviour: the grid is the array's) on a finer one
+        shp = (cfg.domain.ny, cfg.domain.nx) if user_flux is True else (cfg.domain.ny + 4, cfg.domain.nx + 2)
+        q_user = core.case_rng(0, "c13-user-flux").random(shp) + np.arange(shp[1])[None, :]
     runs = 0
     for tw in cfg.towers:
         for i in range(cfg.met.n_timesteps):
